@@ -15,7 +15,7 @@ SodAct == last' = [op |-> "startOfDay", z |-> cur.z, t |-> cur.t, out |-> Ok(ZSt
 WptAct(sod) == last' = [op |-> "withPlainTime", z |-> cur.z, t |-> cur.t, sod |-> sod, out |-> ZWithPlainTime(cur.z, cur.t, sod)] /\ UNCHANGED cur
 HidAct == last' = [op |-> "dayLength", z |-> cur.z, t |-> cur.t, out |-> Ok(DayLength(cur.z, cur.t))] /\ UNCHANGED cur
 Next == /\ (OneStep => last = None)
-        /\ \/ \E D \in Durs, ovf \in {"constrain"} : AddAct(D, ovf) \/ SubAct(D, ovf)
+        /\ \/ \E D \in Durs, ovf \in {"constrain", "reject"} : AddAct(D, ovf) \/ SubAct(D, ovf)
            \/ \E t2 \in Instants, lg \in Largests, s \in BOOLEAN : DiffAct(t2, lg, s)
            \/ SodAct \/ HidAct
            \/ \E sod \in {0, 1800, 2 * 3600 + 1800, 3 * 3600, 12 * 3600, 86399} : WptAct(sod)
